@@ -500,6 +500,17 @@ class NudgingShiftSegment : public ShiftSegment
         bool endsInShape;
         bool singleConnectedSegment;
         std::vector<Point> checkpoints;
+#ifdef ADAPTAGRAMS_VERIF
+        // Verification hook H1b: read access to the bend flags.
+        bool verifSBend(void) const
+        {
+            return sBend;
+        }
+        bool verifZBend(void) const
+        {
+            return zBend;
+        }
+#endif // ADAPTAGRAMS_VERIF
     private:
         bool sBend;
         bool zBend;
@@ -2628,6 +2639,26 @@ static void verifDumpConstraints(FILE *fp, const char *tag,
     fprintf(fp, "\n");
 }
 
+// Hook H1b: the fields of a segment that the relations overlapsWith /
+// shouldAlignWith / canAlignWith read and that H1's SEG record lacks.
+static void verifDumpSegmentExtra(FILE *fp, bool sBend, bool zBend,
+        const std::vector<size_t>& indexes,
+        const std::vector<Point>& checkpoints)
+{
+    fprintf(fp, " %d %d %u", (int) sBend, (int) zBend,
+            (unsigned) indexes.size());
+    for (size_t i = 0; i < indexes.size(); ++i)
+    {
+        fprintf(fp, " %u", (unsigned) indexes[i]);
+    }
+    fprintf(fp, " %u", (unsigned) checkpoints.size());
+    for (size_t i = 0; i < checkpoints.size(); ++i)
+    {
+        fprintf(fp, " %a %a", checkpoints[i].x, checkpoints[i].y);
+    }
+    fprintf(fp, "\n");
+}
+
 static void verifDumpRanges(FILE *fp, const char *tag,
         const std::list<std::pair<size_t, size_t> >& ranges)
 {
@@ -2653,6 +2684,57 @@ void ImproveOrthogonalRoutes::nudgeOrthogonalRoutes(size_t dimension,
     // If we can fit things with the desired separation distance, then
     // we try 10 times, reducing each time by a 10th of the original amount.
     double reductionSteps = 10.0;
+
+#ifdef ADAPTAGRAMS_VERIF
+    // Verification hook H1b (add-only): the whole segment list of this pass
+    // before it is split into regions, with the display routes the segment
+    // indexes refer to.  Only reads state.
+    if (verif_nudge_log)
+    {
+        FILE *vfp = verif_nudge_log;
+        size_t vAltDim = (dimension + 1) % 2;
+        fprintf(vfp, "ALLSEG %u %d %u %d %a\n", (unsigned) dimension,
+                (int) justUnifying, (unsigned) m_segment_list.size(),
+                (int) m_router->routingOption(
+                    nudgeOrthogonalTouchingColinearSegments),
+                m_router->routingParameter(fixedSharedPathPenalty));
+        for (ConnRefList::const_iterator vC = m_router->connRefs.begin();
+                vC != m_router->connRefs.end(); ++vC)
+        {
+            if ((*vC)->routingType() != ConnType_Orthogonal)
+            {
+                continue;
+            }
+            const Polygon& vRoute = (*vC)->displayRoute();
+            fprintf(vfp, "AROUTE %u %u", (*vC)->id(),
+                    (unsigned) vRoute.size());
+            for (size_t vK = 0; vK < vRoute.size(); ++vK)
+            {
+                fprintf(vfp, " %a %a", vRoute.ps[vK].x, vRoute.ps[vK].y);
+            }
+            fprintf(vfp, "\n");
+        }
+        size_t vSegN = 0;
+        for (ShiftSegmentList::iterator vIt = m_segment_list.begin();
+                vIt != m_segment_list.end(); ++vIt, ++vSegN)
+        {
+            NudgingShiftSegment *vSeg =
+                    static_cast<NudgingShiftSegment *> (*vIt);
+            fprintf(vfp, "ASEG %u %u %a %d %d %d %d %d %d %a %a %a %a",
+                    (unsigned) vSegN, vSeg->connRef->id(),
+                    vSeg->lowPoint()[dimension], (int) vSeg->fixed,
+                    (int) vSeg->finalSegment, (int) vSeg->endsInShape,
+                    (int) (vSeg->checkpoints.size() > 0),
+                    (int) vSeg->singleConnectedSegment,
+                    (int) vSeg->zigzag(), vSeg->minSpaceLimit,
+                    vSeg->maxSpaceLimit, vSeg->lowPoint()[vAltDim],
+                    vSeg->highPoint()[vAltDim]);
+            verifDumpSegmentExtra(vfp, vSeg->verifSBend(), vSeg->verifZBend(),
+                    vSeg->indexes, vSeg->checkpoints);
+        }
+        fflush(vfp);
+    }
+#endif // ADAPTAGRAMS_VERIF
 
     size_t totalSegmentsToShift = m_segment_list.size();
     size_t numOfSegmentsShifted = 0;
@@ -2934,6 +3016,17 @@ void ImproveOrthogonalRoutes::nudgeOrthogonalRoutes(size_t dimension,
                         vSeg->variable->weight, vSeg->variable->id,
                         vSeg->lowPoint()[vAltDim], vSeg->highPoint()[vAltDim],
                         (unsigned) vSeg->indexes.size());
+            }
+            // Hook H1b: the remaining fields of every segment.
+            vSegN = 0;
+            for (ShiftSegmentList::iterator vIt = currentRegion.begin();
+                    vIt != currentRegion.end(); ++vIt, ++vSegN)
+            {
+                NudgingShiftSegment *vSeg =
+                        static_cast<NudgingShiftSegment *> (*vIt);
+                fprintf(vfp, "SEGX %u", (unsigned) vSegN);
+                verifDumpSegmentExtra(vfp, vSeg->verifSBend(),
+                        vSeg->verifZBend(), vSeg->indexes, vSeg->checkpoints);
             }
             // The four relations the generator consults, for every ordered
             // pair (curr, prev) with prev earlier in processing order.
